@@ -1,9 +1,13 @@
 #!/bin/sh
 # (re)generate _CoqProject + Makefile for every .v under coq/ and run a full .vo build
+# (or build only the targets given as arguments).  Serialised by a lock: several checks /
+# builders share this tree.
 cd "$(dirname "$0")" || exit 2
+exec 9>.mk.lock
+flock 9
 { echo "-Q . DF"; find base gen model proofs props check -name '*.v' | sort; } > _CoqProject.new
 if ! cmp -s _CoqProject.new _CoqProject || [ ! -f Makefile ]; then
   mv _CoqProject.new _CoqProject
   coq_makefile -f _CoqProject -o Makefile >/dev/null || exit 2
 else rm -f _CoqProject.new; fi
-exec timeout ${MK_TIMEOUT:-1500} make -k -j${MK_JOBS:-16} "$@"
+timeout ${MK_TIMEOUT:-1500} make -k -j${MK_JOBS:-16} "$@"
